@@ -48,6 +48,14 @@ CLAIMS = {
    text="Static decision of the encoding-consistency clauses: (R1) type-graph non-interference: nothing reachable from hir::TypeContext can carry the std/diplomat spelling, and backends take only the TypeContext; (R2) by abstract interpretation of the gate, both spellings of every Option/Result payload lower to the same HIR value in every position or one spelling is rejected, and Option returns get the Nullable / optional-pointer return kind in both spellings; (R3) ffi_safe_version/is_ffi_safe canonicalisation tables and the macro's use of them; (R4) path-sensitive MIR rule on diplomat-runtime: union arm ok is accessed only where is_ok is known true (err: false), constructors pair the arm with the flag, unit arms are zero-sized in rustc's layouts; (R5) {union; bool is_ok} record shape in the C/Dart/Kotlin mirrors, the per-method C record emits the union iff a payload line is emitted, C++ conversions do not cross arms; (R6) macro return rewriting, confirmed on every generated body of the repo's bridges.",
    note="Value-level equality of behaviour for all payload values is not decided. JS receive-buffer arithmetic is reported as an observation only.",
    technique="type-graph reachability + abstract interpretation + MIR path rule + mirrors"),
+ "C06": dict(
+   text="Static decision that symbol names have one source and are used unmodified: (R1) the naming scheme abi_rename.apply(\"Type_method\") / abi_rename.apply(\"Type_destroy\") in the AST (the rename is applied to the complete name); (R2) intra-procedural provenance tracing over the typed HIR: the macro's export idents, the HIR fields and the symbol slot of every emitting backend (C, C++, Dart, JS, Kotlin; 9 struct slots + 2 Kotlin format sites) derive from abi_name / dtor_abi_name and from no other name field; (R3) every template prints that slot at its native-symbol position and no template assembles a symbol from a display name (76 template checks); (R4) the abi_rename inheritance decision table and its call contexts; (R5) the macro builds its AST before stripping attributes.",
+   note="Equality with the linker's symbol table needs a build and is not decided; nanobind and demo_gen emit no native symbols themselves.",
+   technique="provenance (def-use) tracing on typed HIR + template slot linting + decision tables"),
+ "C09": dict(
+   text="Static decision of the well-formedness preconditions that are visible in the generators: (R1) every #[diplomat::X] the AST gives meaning to is accepted by the macro (found opaque_mut, repaired by a fix: commit); (R2) for every syn node kind whose attributes the AST reads (computed from the resolved program), the macro strips that node's attributes (found impl blocks / traits / trait fns, repaired by a fix: commit); (R3) every arm that names a custom type records the include/forward for the same id through the formatter that names generated files, and C++ relative include paths are matched per path component; (R4) every emitted C/C++ parameter name passes through fmt_identifier and the table consulted in C (C++) mode covers the ISO C11 (C++17) keyword list.",
+   note="That any generated file compiles is not decided (needs gcc/g++/node); spec/keywords.json holds the standard keyword lists.",
+   technique="set agreement between AST readers and macro strippers over resolved types + pairing rules + keyword table coverage"),
 }
 NOT_YET = "rule module not built yet in this round (see DESIGN.md section 4 for the planned static rules)"
 
